@@ -8,6 +8,16 @@
    NoLostTask, Progress.  Sensitivity runs: reassembly by arrival order, no short-read
    continuation, sparse copy that does not extend the destination - TLC must
    reject each; two vacuity witnesses.
+4. specs/SftpIO/SftpTree.tla models the tree-walking layer above it
+   (_begin_copy / _copy: named directory, glob, single entry; recurse,
+   follow_symlinks, preserve, error handler; what already exists at the
+   destination) over small trees with files, directories and links whose
+   text length differs from every file size; TLC checks SizeFromTarget,
+   LinksAsFlagged, ErrorsReported, NoFalseReport, NoExtraneous, rejects the
+   variants "size from the link's own attributes" and "failed entries
+   dropped", and prints the case table; every printed case is run with the
+   real client against the real server (chroot) in real directories: get, put
+   and copy, trees compared byte for byte, errors compared with the table.
 2. Behaviours sampled by TLC (-simulate) are replayed into the REAL client
    (SFTPClientFile.read/write, SFTPClient.get/put/copy) against a scripted
    SFTP server that holds every READ/WRITE and answers in the behaviour's
@@ -108,6 +118,89 @@ def report(ctx, r, per_clause):
     for e in r.get('loop_exceptions') or []:
         ctx.divergence(f'SftpIO: exception reached the event loop: {e} '
                        f'cfg={c} script={r["script"]}')
+
+
+TREE_INVS = ['SizeFromTarget', 'LinksAsFlagged', 'TreeShaped',
+             'ErrorsReported', 'NoFalseReport', 'NoExtraneous']
+
+
+def tree_tlc(name, invs, workers=2, seed=None, **kw):
+    """One TLC run of specs/SftpIO/SftpTree.tla"""
+    d = dict(Emit='FALSE', NTrees=0, NFlags=0, SizeFromLstat='FALSE',
+             SkipErrors='FALSE')
+    d.update(kw)
+    cfg = f'_c12_tree_{name}.cfg'
+    lines = ['CONSTANTS'] + [f'  {k} = {v}' for k, v in d.items()]
+    lines += ['SPECIFICATION Spec', 'CHECK_DEADLOCK FALSE']
+    lines += [f'INVARIANT {i}' for i in invs]
+    with open(os.path.join(SPEC, cfg), 'w') as f:
+        f.write('\n'.join(lines) + '\n')
+    try:
+        return tlc.run(SPEC, 'SftpTree', cfg, f'c12_tree_{name}',
+                       workers=workers, timeout=1500, seed=seed,
+                       java_heap='3g')
+    finally:
+        tlc.cleanup(f'c12_tree_{name}')
+        os.remove(os.path.join(SPEC, cfg))
+
+
+def tree_replay(ctx, res_emit, rnd):
+    """Part 4: every (tree, flags) case printed by TLC from SftpTree.tla is
+    run through the real client and the real server in real directories."""
+    from harness.drivers import sftp_proto, sftp_tree
+    rows = [r for r in sftp_proto.printed_multiline(res_emit.output)
+            if r and r[0] == 'CASE']
+    ctx.require(len(rows) >= 300, f'tree table has only {len(rows)} cases')
+    w = sftp_tree.TreeWorld()
+    seen = {}
+    stats = {'followed_links': 0, 'with_errors': 0, 'preexisting': 0}
+    try:
+        for i, row in enumerate(rows):
+            nodes, fl, out, errs, fatal = sftp_tree.parse_row(row)
+            sparse = rnd.random() < 0.7
+            version = rnd.choice([3, 3, 4, 6])
+            r = sftp_tree.run_case(w, i, nodes, fl, out, errs, fatal,
+                                   sparse=sparse, version=version)
+            links = any(t == 'link' for t, _, _ in nodes.values())
+            stats['followed_links'] += bool(links and fl['follow'])
+            stats['with_errors'] += bool(errs)
+            stats['preexisting'] += fl['pre'] != 'none'
+            ctx.count(('tree', json.dumps(nodes, sort_keys=True),
+                       json.dumps(fl, sort_keys=True)),
+                      nontrivial=len(nodes) > 1)
+            if i % 157 == 11:
+                ctx.sample({'part': 'tree', 'nodes': nodes, 'flags': fl,
+                            'expected_errors': sorted(errs),
+                            'raised': r.get('raised'),
+                            'reported': r.get('reported')})
+            rp = {'kind': 'tree', 'nodes': nodes, 'fl': fl, 'out': out,
+                  'errs': sorted(errs), 'fatal': fatal, 'sparse': sparse,
+                  'version': version}
+            for clause in sorted({c for c, _ in r['l1']}):
+                seen[clause] = seen.get(clause, 0) + 1
+                if seen[clause] > 5:
+                    continue
+                text = '; '.join(t for c, t in r['l1'] if c == clause)
+                ctx.violation({'module': 'SftpTree', 'clause': clause,
+                               'nodes': nodes, 'fl': fl, 'sparse': sparse,
+                               'version': version},
+                              f'{clause}: {text} [tree={nodes} flags={fl} '
+                              f'sparse={sparse} v{version} raised='
+                              f'{r.get("raised")} reported='
+                              f'{r.get("reported")}]', replay=rp)
+            if r['diverged'] and not r['l1']:
+                ctx.divergence(f'SftpTree: {r["diverged"]} tree={nodes} '
+                               f'flags={fl} sparse={sparse} v{version}')
+        for e in w.loop.exceptions:
+            ctx.divergence(f'SftpTree: exception reached the event loop: '
+                           f'{e.get("exception") or e.get("message")}')
+    finally:
+        w.close()
+    ctx.traces_validated(len(rows))
+    ctx.notes.append(f'tree cases replayed: {len(rows)} {stats}' +
+                     (f' monitor hits {seen}' if seen else ''))
+    ctx.require(stats['followed_links'] > 30 and stats['with_errors'] > 30,
+                f'tree sample too thin: {stats}')
 
 
 TRACE_CONSTS = dict(MaxN=1, Blocks='{1}', MaxReqs='{1}', Ops='{}',
@@ -283,6 +376,25 @@ def main(ctx):
     if ctx.replay_path:
         with open(ctx.replay_path) as f:
             rp = json.load(f)['replay']
+        if rp.get('kind') == 'tree':
+            from harness.drivers import sftp_tree
+            w = sftp_tree.TreeWorld()
+            try:
+                nodes = {k: tuple(v) for k, v in rp['nodes'].items()}
+                r = sftp_tree.run_case(w, 0, nodes, rp['fl'], rp['out'],
+                                       set(rp['errs']), rp['fatal'],
+                                       sparse=rp['sparse'],
+                                       version=rp['version'])
+            finally:
+                w.close()
+            print('tree case:', r['l1'], r['diverged'], r.get('raised'))
+            ctx.count(('replay', ctx.replay_path))
+            for clause, text in r['l1']:
+                ctx.violation({'module': 'SftpTree', 'clause': clause,
+                               'nodes': rp['nodes'], 'fl': rp['fl'],
+                               'sparse': rp['sparse'],
+                               'version': rp['version']}, text, replay=rp)
+            return
         if rp.get('kind') == 'natural':
             r = sftp_io.record_natural(rp['seed'], rp['server'])
             print('natural:', r['cfg'], r['outcome'], r['l1'])
@@ -395,8 +507,22 @@ def main(ctx):
     with concurrent.futures.ThreadPoolExecutor(max_workers=4) as ex:
         f_mc = [ex.submit(one, it) for it in runs]
         f_sim = [ex.submit(one_sim, it) for it in enumerate(sims)]
+        # the tree-walking layer (specs/SftpIO/SftpTree.tla)
+        f_tree = {
+            'all': ex.submit(tree_tlc, 'all', TREE_INVS,
+                             workers=2 if quick else 6,
+                             seed=ctx.seed + 3, NFlags=110 if quick else 0),
+            'lstat': ex.submit(tree_tlc, 'lstat', ['SizeFromTarget'],
+                               SizeFromLstat='TRUE'),
+            'skip': ex.submit(tree_tlc, 'skip', ['ErrorsReported'],
+                              SkipErrors='TRUE'),
+            'emit': ex.submit(tree_tlc, 'emit', ['Table'], workers=1,
+                              seed=ctx.seed + 5, Emit='TRUE',
+                              NTrees=800 if quick else 15000),
+        }
         results = [f.result() for f in f_mc]
         sim_out = [f.result() for f in f_sim]
+        tree_res = {k: f.result() for k, f in f_tree.items()}
     for (name, exp, kw), res in zip(runs, results):
         ctx.require_tlc_ok(f'SftpIO {name} {kw}', res, expect_violation=exp)
 
@@ -454,6 +580,19 @@ def main(ctx):
 
     # ---- 3. code -> spec: recorded natural transfers validated by TLC ------
     trace_validation(ctx, sftp_io, quick)
+
+    # ---- 4. the tree-walking layer: get / put / copy of small trees ---------
+    ctx.require_tlc_ok('SftpTree ' + ('all trees x sampled flag sets'
+                                      if quick else 'every case'),
+                       tree_res['all'])
+    ctx.require_tlc_ok('SftpTree working with the link\'s own attributes '
+                       '(must violate SizeFromTarget)', tree_res['lstat'],
+                       expect_violation='SizeFromTarget')
+    ctx.require_tlc_ok('SftpTree dropping failed entries silently (must '
+                       'violate ErrorsReported)', tree_res['skip'],
+                       expect_violation='ErrorsReported')
+    ctx.require_tlc_ok('SftpTree case table', tree_res['emit'])
+    tree_replay(ctx, tree_res['emit'], rnd)
 
     ctx.assumptions += [
         'recorded transfers: linearization points are taken in the client by '
